@@ -488,6 +488,21 @@ def findDomain (rule opName : String) (ps : Params) (ds : List Dom) : R :=
   | "_find_domain_einsum", ds => fdEinsum ps ds
   | _, _ => .error .beyond
 
+/-! ### user-made ops: `Dependent.__call__` (domains.py) as used by `make_op`'s find_domain rule -/
+
+/-- `kwargs.__getitem__(name)` on the keyword dictionary `dict(zip(parameters, operand domains))` -/
+def kwGet (kwargs : List (String × Dom)) (name : String) : Option Dom :=
+  (kwargs.find? (·.1 == name)).map (·.2)
+
+/-- `self.fn(*map(kwargs.__getitem__, self.args))`: the hint's lambda receives, for each of ITS OWN argument
+    names (`inspect.getfullargspec(fn)[0]`), the domain of the operand of that name (KeyError = `none`). -/
+def dependentArgs (lambdaArgs : List String) (kwargs : List (String × Dom)) : Option (List Dom) :=
+  lambdaArgs.mapM (kwGet kwargs)
+
+/-- what a positional implementation would pass instead: the kwargs the lambda asks for, in the CALLER's order -/
+def dependentArgsPositional (lambdaArgs : List String) (kwargs : List (String × Dom)) : List Dom :=
+  (kwargs.filter fun p => lambdaArgs.contains p.1).map (·.2)
+
 /-! ### ProductDomain operands (`Tuple`-valued terms): domains.py:376-388, terms.py Tuple.__init__ -/
 
 /-- a funsor output domain: an array domain or `Product[d₁, …, dₙ]` (flat products of array domains) -/
